@@ -182,7 +182,7 @@ _t('C10', 'Theorem C10_cli (end to end over the pipeline model): whenever cli pr
 _t('C11', 'Theorem C11_meaning: evaluating a formula renamed by any id map with a left inverse yields a diagram that denotes the same function of the renamed variables (so a different ordering changes shape, not meaning). '
           'The id assignment under an ordering (preload, continue after the largest id) and the ordering-file reader are part of the Gallina pipeline cli. Partial: that two orderings induce renamings of one another is shown by correspondence, not proved at lexer level. '
           'Correspondence: 12 formulas x all 65 orderings over {a,b,c,u} incl. supersets with unused names in every position, duplicate/punctuation/keyword files, random ordering files; header order, row set by name, -r list, and the -r/-o round trip on the real binary.', NOTE_CLI)
-_t('C12', 'Theorems (logical core): on the answer of a parsed formula the table printer\'s column lookup never fails (C12_table, from C09_support and the partition theorem), and fixed-point-free formulas always evaluate (C12_eval). '
+_t('C12', 'Theorem C12_no_panic: for EVERY fuel, code-point classification, option set (-f, -c, -m, -b), ordering-file text and formula text, the pipeline model cli (ordering file, tokenize, parse, vars, free_vars, eval, retain, model, both table printers) never returns CliPanic, i.e. no column lookup in either printer fails on the diagram that is printed (answer, retained answer, or a model of either). Proved from: every variable of a parsed tree is an identifier token and parser output has no embedded diagram (parse_vars, by induction over the grammar); the support of the answer consists of proper free occurrences (support_fv); retain and model keep shape and shrink the support; vars is duplicate-free (pf_vars_spec); the partition theorem. Also C12_table and C12_eval (fixed-point-free formulas always evaluate). '
           'The tokenizer/parser/evaluator model returns Error (never a panic value) on every input, and the correspondence shows the implementation returns Err exactly there. Partial by nature: stack exhaustion, allocation failure, clap and I/O are run-time behaviour. '
           'Correspondence: 40k in-process arbitrary byte strings per quick run through tokenize/new/eval, both DOT renderers, retain, model, to_free_index under catch_unwind; 1000 runs of the binary on arbitrary bytes as formula and ordering file with random options (exit status 0/1/2, no panic message); the option grid.', NOTE_CLI)
 
